@@ -398,14 +398,33 @@ func (c *FnVC) appendBuiltin(x *ssa.Call, args []ssa.Value) {
 	// appending nothing to a nil slice keeps it nil
 	base := c.bumpAlloc()
 	newCap := c.freshConst("appcap", "(_ BitVec 64)")
-	c.assume(fmt.Sprintf("(and (bvsle %s %s) (bvsle %s #x3fffffffffffffff))", newLen, newCap, newCap))
+	c.assume(fmt.Sprintf("(and (bvsle %s %s) (bvsle %s #x0000010000000000))", newLen, newCap, newCap))
 	res := c.freshName("app")
 	c.def(res, "Slice", fmt.Sprintf("(ite %s (mkSlice (s_arr %s) (s_off %s) %s (s_cap %s)) (mkSlice (mkLoc %s PNil) #x0000000000000000 %s %s))",
 		inPlace, s, s, newLen, s, base, newLen, newCap))
-	c.assume(fmt.Sprintf("(bvsle %s #x3fffffffffffffff)", newLen))
+	c.assume(fmt.Sprintf("(bvsle %s #x0000010000000000)", newLen))
 	c.vals[x] = res
 	// heap effect
 	k := c.te.kindOf(et)
+	if elems, ok := c.varargsElems(args[1]); ok && k != "" && len(elems) >= 1 && len(elems) <= 4 {
+		// append(s, e1..en) with single-leaf elements: quantifier-free when in place; on
+		// reallocation the new array is described by separate, simply triggered facts
+		old := c.H(k)
+		hin := old
+		for j, e := range elems {
+			hin = fmt.Sprintf("(store %s (elem %s (bvadd (s_len %s) %s)) %s)", hin, s, s, bv64(int64(j)), c.v(e))
+		}
+		hr := c.freshName("H_" + k + "_re")
+		c.decl(hr, compSort(c, k))
+		c.assume(fmt.Sprintf("(forall ((l Loc)) (! (=> (not (= (base l) %s)) (= (select %s l) (select %s l))) :pattern ((select %s l))))", base, hr, old, hr))
+		c.assume(fmt.Sprintf("(forall ((i (_ BitVec 64))) (! (=> (and (bvsle #x0000000000000000 i) (bvslt i (s_len %s))) (= (select %s (mkLoc %s (PE PNil i))) (select %s (elem %s i)))) :pattern ((select %s (mkLoc %s (PE PNil i))))))",
+			s, hr, base, old, s, hr, base))
+		for j, e := range elems {
+			c.assume(fmt.Sprintf("(= (select %s (mkLoc %s (PE PNil (bvadd (s_len %s) %s)))) %s)", hr, base, s, bv64(int64(j)), c.v(e)))
+		}
+		c.setH(k, fmt.Sprintf("(ite %s %s %s)", inPlace, hin, hr))
+		return
+	}
 	if k != "" {
 		old := c.H(k)
 		n := c.freshName("H_" + k)
